@@ -12,6 +12,8 @@ W_MARK, C_MARK, C2_MARK = 777, 555, 556
 TIME_CONDS = {
     '>': 't.ts > 555', '>=': 't.ts >= 555', '=': 't.ts = 555', '<': 't.ts < 555', '<=': 't.ts <= 555',
     'between': 't.ts BETWEEN 555 AND 556', '>latest': 't.ts > LATEST', '=latest': 't.ts = LATEST', 'none': None,
+    # the bound written as an expression that is not a plain literal (same meaning: the planner must not depend on the bound being a Constant node)
+    '>cast': 't.ts > CAST(555 AS int)', '>=cast': 't.ts >= CAST(555 AS int)', '=cast': 't.ts = CAST(555 AS int)',
 }
 PART_FILTERS = {'none': None, 'eq': 't.g = 1', 'in': 't.g IN (1, 2)'}
 
@@ -205,6 +207,7 @@ def spec_relation(db, m, w, c, c2):
             if len(rows) > 1 else z3.IntVal(0)
         return z3.And(pool(i), newer < w)
     out = []
+    tc = tc.replace('cast', '')
     for i in range(len(rows)):
         t = ts(i)
         if tc == '>':
